@@ -7,9 +7,13 @@ import (
 	"go/types"
 	"sort"
 	"strings"
+	"sync"
 
 	"golang.org/x/tools/go/ssa"
 )
+
+var siteStats map[string]int
+var siteMu sync.Mutex
 
 type Stats struct {
 	allocs, calls, goStmts int64
@@ -49,6 +53,11 @@ type PathState struct {
 	notes    map[string]string
 	unknown  bool
 	viol     []*Violation
+	known    map[*Term]bool
+	doms     map[*Term]*dom
+	nquick   int
+	scanned  map[*Term]bool
+	nscanned int
 }
 
 type WorkItem struct {
@@ -117,7 +126,7 @@ func NewMachine(p *Program) *Machine {
 		m.runtimeErrT = rt.Type("errorString").Type()
 	}
 	m.env = newEnv(m)
-	m.path = &PathState{names: map[string]int{}, reaches: map[string]bool{}, notes: map[string]string{}, modelOK: true, model: Model{}}
+	m.path = &PathState{names: map[string]int{}, reaches: map[string]bool{}, notes: map[string]string{}, modelOK: true, model: Model{}, known: map[*Term]bool{}, doms: map[*Term]*dom{}, scanned: map[*Term]bool{}}
 	return m
 }
 
@@ -160,13 +169,40 @@ func (m *Machine) addPC(t *Term) {
 		return
 	}
 	m.path.pc = append(m.path.pc, t)
+	m.path.learn(t)
 }
 
-func (m *Machine) syncSolver() {
+func (m *Machine) syncSolver(extra []*Term) {
 	p := m.path
 	if !p.solverOn {
-		m.solver.Reset()
+		m.solver.BeginPath()
 		p.solverOn = true
+		p.sent = 0
+	}
+	// unicode applications on plain symbols get their full definition at base level
+	var need []*Term
+	var scan func(t *Term)
+	scan = func(t *Term) {
+		if t == nil || p.scanned[t] {
+			return
+		}
+		p.scanned[t] = true
+		if m.solver.NeedBase(t) {
+			need = append(need, t)
+		}
+		scan(t.a)
+		scan(t.b)
+		scan(t.c)
+	}
+	for ; p.nscanned < len(p.pc); p.nscanned++ {
+		scan(p.pc[p.nscanned])
+	}
+	for _, e := range extra {
+		scan(e)
+	}
+	if len(need) > 0 {
+		m.solver.AddBase(need)
+		m.solver.BeginPath()
 		p.sent = 0
 	}
 	for p.sent < len(p.pc) {
@@ -180,8 +216,12 @@ func (m *Machine) syncSolver() {
 }
 
 func (m *Machine) check(extra ...*Term) (SatResult, Model) {
-	m.syncSolver()
-	return m.solver.Check(true, extra...)
+	m.syncSolver(extra)
+	syms := make([]*Term, len(m.path.nondets))
+	for i, nd := range m.path.nondets {
+		syms[i] = nd.T
+	}
+	return m.solver.Check(syms, extra...)
 }
 
 func (m *Machine) evalUnder(t *Term) uint64 {
@@ -214,6 +254,10 @@ func (m *Machine) branch(c BoolV, site string) bool {
 	}
 	p := m.path
 	tc := m.tc
+	if v, ok := p.quick(c.T); ok {
+		p.nquick++
+		return v
+	}
 	if p.pos < len(p.trace) {
 		d := p.trace[p.pos]
 		p.pos++
@@ -249,6 +293,12 @@ func (m *Machine) branch(c BoolV, site string) bool {
 		otherV = 0
 	}
 	r, mod := m.check(otherT)
+	if siteStats != nil && m.cur != nil {
+		siteMu.Lock()
+		pos := m.prog.prog.Fset.Position(m.cur.curInstr.Pos())
+		siteStats[fmt.Sprintf("%s %s:%d %v", m.cur.cf.name, shortFile(pos.Filename), pos.Line, r)]++
+		siteMu.Unlock()
+	}
 	switch r {
 	case Sat:
 		m.spawnItem(otherV, mod)
@@ -351,6 +401,12 @@ func (m *Machine) assume(c BoolV) {
 		return
 	}
 	p := m.path
+	if v, ok := p.quick(c.T); ok {
+		if !v {
+			panic(pathEnd{kind: "assume-false"})
+		}
+		return
+	}
 	if p.pos < len(p.trace) {
 		m.addPC(c.T)
 		return
@@ -387,6 +443,10 @@ func (m *Machine) assert(c BoolV, label string) {
 	}
 	p := m.path
 	neg := m.tc.Not(c.T)
+	if v, ok := p.quick(c.T); ok && v {
+		m.job.countDischarged()
+		return
+	}
 	if p.pos >= len(p.trace) {
 		// in replayed prefix the assertion was already examined by the parent path
 		if p.modelOK && m.evalUnder(neg) == 1 {
